@@ -122,7 +122,7 @@ fn gen_case(rng: &mut Rng, id: usize, maxunits: usize) -> Value {
     let shapes = [
         "dag", "cycle", "nested", "tails_chords", "self_use", "lib_all", "swallow", "dense", "cycle", "tails_chords", "dag", "dag",
         "arch_cycle", "arch_cycle", "symtab", "homonym", "homonym", "lib_all", "loading", "loading",
-        "hub", "hub", "lint_dep", "lint_dep",
+        "hub", "hub", "lint_dep", "lint_dep", "symorder", "symorder",
     ];
     let shape = shapes[rng.below(shapes.len())];
     if shape == "symtab" {
@@ -136,6 +136,9 @@ fn gen_case(rng: &mut Rng, id: usize, maxunits: usize) -> Value {
     }
     if shape == "lint_dep" {
         return gen_lint_dep(rng, id);
+    }
+    if shape == "symorder" {
+        return gen_symorder(rng, id);
     }
     let nlib = if shape == "homonym" || shape == "lib_all" { 2 + rng.below(2) } else { 1 + rng.below(3) };
     let n = 2 + rng.below(maxunits.max(3) - 1);
@@ -518,6 +521,99 @@ fn gen_lint_dep(rng: &mut Rng, id: usize) -> Value {
         nfiles += 1;
     }
     render(rng, id, "lint_dep", nlib, &us, nfiles)
+}
+
+/// schedule-dependent SYMBOL IDS must not leak into results.  Legal projects in which fresh
+/// identifiers are first seen by several files that are parsed in parallel (in different orders
+/// per file, so the ids depend on which worker comes first) and are the names of interface
+/// objects / record elements / parameters declared on ONE source line; the consumers depend on
+/// the declaration ORDER: positional generic and port maps (entity and component instantiation),
+/// positional calls and positional record aggregates with differently typed actuals.
+/// `expect_codes`: the only diagnostic codes a run may report.
+fn gen_symorder(rng: &mut Rng, id: usize) -> Value {
+    let ngroups = 3 + rng.below(4);
+    let tag = rng.below(100000);
+    let mut files: Vec<Value> = Vec::new();
+    let mut units: Vec<Value> = Vec::new();
+    let types = ["bit", "integer", "boolean", "time", "character", "real"];
+    let vals = ["'1'", "2", "true", "3 ns", "'x'", "1.5"];
+    let mut add_file = |files: &mut Vec<Value>, name: String, text: String| {
+        files.push(json!({"name": name, "lib": 0, "text": text}));
+    };
+    for g in 0..ngroups {
+        let np = 3 + rng.below(4); // ports / elements per line
+        // fresh names; their alphabetical, length and declaration orders all differ
+        let mut names: Vec<String> = (0..np).map(|i| format!("{}{tag}_{g}_{}", ["zq", "a", "mmm", "k", "yy", "b"][(i * 5 + g) % 6], (np - i) * 7 % 10)).collect();
+        names.dedup();
+        let np = names.len();
+        // a permutation of the types so that any exchange of two formals is a type error
+        let mut ty: Vec<usize> = (0..np).collect();
+        for i in (1..np).rev() {
+            ty.swap(i, rng.below(i + 1));
+        }
+        let ports: Vec<String> = (0..np).map(|i| format!("{} : in {}", names[i], types[ty[i]])).collect();
+        let gens: Vec<String> = (0..np).map(|i| format!("g_{} : {} := {}", names[i], types[ty[i]], vals[ty[i]])).collect();
+        let actual_vals: Vec<String> = (0..np).map(|i| vals[ty[i]].to_string()).collect();
+        let base = units.len();
+        // entity with same-line generics and ports + trivial architecture
+        let ent = format!(
+            "entity e{g} is\n  generic ({});\n  port ({});\nend entity;\narchitecture a of e{g} is\nbegin\nend architecture;\n",
+            gens.join("; "),
+            ports.join("; ")
+        );
+        add_file(&mut files, format!("ent{g}.vhd"), ent);
+        units.push(json!({"u": base, "lib": 0, "kind": "E", "name": format!("e{g}"), "of": 0, "file": format!("ent{g}.vhd"), "reqs": []}));
+        units.push(json!({"u": base + 1, "lib": 0, "kind": "A", "name": "a", "of": base, "file": format!("ent{g}.vhd"), "reqs": [{"k": "of", "t": base, "line": 5}]}));
+        // package: record with same-line elements, function with same-line parameters, component
+        let elems: Vec<String> = (0..np).map(|i| format!("{} : {};", names[i], types[ty[i]])).collect();
+        let params: Vec<String> = (0..np).map(|i| format!("{} : {}", names[i], types[ty[i]])).collect();
+        let pkg = format!(
+            "package p{g} is\n  type rec{g} is record {} end record;\n  constant r{g} : rec{g} := ({});\n  function f{g} ({}) return integer;\n  component c{g} is port ({}); end component;\nend package;\n",
+            elems.join(" "),
+            actual_vals.join(", "),
+            params.join("; "),
+            ports.join("; ")
+        );
+        add_file(&mut files, format!("pkg{g}.vhd"), pkg);
+        units.push(json!({"u": base + 2, "lib": 0, "kind": "P", "name": format!("p{g}"), "of": 0, "file": format!("pkg{g}.vhd"), "reqs": []}));
+        // top: signals of the types, positional maps of the entity and of the component, positional call
+        let mut top = format!("use work.p{g}.all;\nentity t{g} is\nend entity;\narchitecture a of t{g} is\n");
+        for i in 0..np {
+            top.push_str(&format!("  signal s{i} : {} := {};\n", types[ty[i]], vals[ty[i]]));
+        }
+        let sigs: Vec<String> = (0..np).map(|i| format!("s{i}")).collect();
+        top.push_str(&format!("  constant k{g} : integer := f{g}({});\nbegin\n", actual_vals.join(", ")));
+        let l_inst = 4 + np + 3;
+        top.push_str(&format!("  i1 : entity work.e{g} generic map ({}) port map ({});\n", actual_vals.join(", "), sigs.join(", ")));
+        top.push_str(&format!("  i2 : component c{g} port map ({});\nend architecture;\n", sigs.join(", ")));
+        add_file(&mut files, format!("top{g}.vhd"), top);
+        units.push(json!({"u": base + 3, "lib": 0, "kind": "E", "name": format!("t{g}"), "of": 0, "file": format!("top{g}.vhd"),
+                          "reqs": [{"k": "ua", "t": base + 2, "line": 1}]}));
+        units.push(json!({"u": base + 4, "lib": 0, "kind": "A", "name": "a", "of": base + 3, "file": format!("top{g}.vhd"),
+                          "reqs": [{"k": "of", "t": base + 3, "line": 4}, {"k": "i", "t": base, "line": l_inst}]}));
+        // unrelated packages that mention the same identifiers in other orders: whoever is
+        // tokenized first decides the symbol ids
+        let nother = 2 + rng.below(3);
+        for o in 0..nother {
+            let mut order: Vec<usize> = (0..np).collect();
+            if o == 0 {
+                order.reverse();
+            } else {
+                for i in (1..np).rev() {
+                    order.swap(i, rng.below(i + 1));
+                }
+            }
+            let mut t = format!("package o{g}_{o} is\n");
+            for &i in &order {
+                t.push_str(&format!("  constant {} : integer := {i};\n  constant g_{} : integer := {i};\n", names[i], names[i]));
+            }
+            t.push_str("end package;\n");
+            add_file(&mut files, format!("other{g}_{o}.vhd"), t);
+            let u = units.len();
+            units.push(json!({"u": u, "lib": 0, "kind": "P", "name": format!("o{g}_{o}"), "of": 0, "file": format!("other{g}_{o}.vhd"), "reqs": []}));
+        }
+    }
+    json!({"id": id, "shape": "symorder", "expect_codes": ["Unused"], "nlib": 1, "units": units, "files": files})
 }
 
 fn render(rng: &mut Rng, id: usize, shape: &str, nlib: usize, us: &[Unit], nfiles: usize) -> Value {
